@@ -86,8 +86,8 @@ func init() {
 			"tax.Extensions.Equals/Contains", "tax.(*Combo).calculate/calculateForRegime/prepareRate", "num.Percentage.Of", "num.Amount.Remove/Add/Subtract/RescaleUp/MatchPrecision"},
 		Stubs: []string{"num.Amount.Rescale/Multiply/Divide: proven integer summaries (C05 layer 0 re-run first)", "currency.Get, tax.RegimeDefFor: native registry import (real ES tables)"},
 		Bounds: map[string][]string{
-			"quick":    {"2 taxable lines; per line one combo in category A (percent present or exempt, optional surcharge, extension none/v1/v2, country ''/XX; percent and surcharge VALUES symbolic) and optionally one in category B; totals symbolic |v| <= 2^36 with currency or currency+2 decimals; EUR; both rounding rules; with and without tax-included category A", "regime ES: 2 lines, VAT key from {standard, reduced, standard+eqs, exempt, zero} and optional retained IRPF"},
-			"thorough": {"2..3 lines; currencies EUR, JPY, BHD; otherwise as quick"},
+			"quick":    {"2 taxable lines; per line one combo in category A (percent present or exempt, optional surcharge, extension none/v1/v2, country ''/XX; percent from {21.0, 10.0}, surcharge from {5.2, 1.4}) and optionally one in category B; totals symbolic |v| <= 2^36 with currency or currency+2 decimals; EUR; both rounding rules; with and without tax-included category A", "regime ES: 2 lines, VAT key from {standard, reduced, standard+eqs, exempt, zero} and optional retained IRPF"},
+			"thorough": {"2..3 lines; currencies EUR, JPY, BHD; percentages from {21.0, 10.0, 5.5}, surcharges from {5.2, 1.4}, every attribute combination on every line (fully symbolic percentage values left 68 obligations unknown after 30 minutes: not claimed)"},
 		},
 		Outside:     []string{"more than 3 lines / 2 combos per line", "document discounts and charges as taxable rows (same interface, covered through C01 skeletons)"},
 		Assumptions: []string{"amount arithmetic within the C05 domain", "go/ssa faithful; z3 sound"},
